@@ -64,20 +64,29 @@ func scanFirstIter(c *core.Ctx) []ob {
 					return false
 				case *ast.IfStmt:
 					be, ok := unparen(z.Cond).(*ast.BinaryExpr)
-					if !ok || be.Op != token.EQL || z.Else == nil {
+					if !ok || (be.Op != token.EQL && be.Op != token.NEQ && be.Op != token.GTR) || z.Else == nil {
 						return true
 					}
-					id, ok := unparen(be.X).(*ast.Ident)
-					lit, ok2 := unparen(be.Y).(*ast.BasicLit)
+					// i == 0 / 0 == i select the first iteration in the then-arm, i != 0 / i > 0 in the else-arm
+					cx, cy := unparen(be.X), unparen(be.Y)
+					if _, litFirst := cx.(*ast.BasicLit); litFirst && be.Op != token.GTR {
+						cx, cy = cy, cx
+					}
+					id, ok := cx.(*ast.Ident)
+					lit, ok2 := cy.(*ast.BasicLit)
 					if !ok || !ok2 || lit.Value != "0" || info.Uses[id] != kobj {
 						return true
 					}
+					var firstArm, otherArm ast.Node = z.Body, z.Else
+					if be.Op != token.EQL {
+						firstArm, otherArm = z.Else, z.Body
+					}
 					// destinations written in the first-iteration arm and accumulated in the other
 					first := map[string]bool{}
-					for _, w := range collectWrites(info, z.Body) {
+					for _, w := range collectWrites(info, firstArm) {
 						first[exprString(w.target)] = true
 					}
-					for _, w := range collectWrites(info, z.Else) {
+					for _, w := range collectWrites(info, otherArm) {
 						if t := exprString(w.target); first[t] {
 							dsts = append(dsts, t)
 						}
